@@ -7,6 +7,7 @@ import (
 	"encoding/binary"
 	"fmt"
 	"sort"
+	"sync"
 
 	"github.com/anyproto/any-sync/commonspace/object/keyvalue/keyvaluestorage"
 	"github.com/anyproto/any-sync/commonspace/object/keyvalue/keyvaluestorage/innerstorage"
@@ -250,16 +251,44 @@ func newChecker(c *lib.Case, w *world, info func() any) *checker {
 	return &checker{c: c, w: w, ctxInfo: info, reported: map[string]bool{}, everStored: map[int]bool{}}
 }
 
+// per-process bookkeeping of how often a key was recorded: the witness context
+// (the whole multiset and schedule) is attached to the first few occurrences
+// only, and beyond keyCap occurrences a key is only counted. Without this a
+// thorough run on a tree with a stored-invalid defect would carry gigabytes of
+// identical witnesses.
+var (
+	keySeenMu sync.Mutex
+	keySeen   = map[string]int{}
+)
+
+const (
+	keyCtxCap = 3
+	keyCap    = 40
+)
+
 func (ck *checker) violation(key, what string, detail map[string]any) {
 	ck.nViol++
 	if ck.nViol > 12 {
 		ck.c.Count("violations_beyond_cap_not_recorded", 1)
 		return
 	}
-	if ck.ctxInfo != nil {
-		detail["context"] = ck.ctxInfo()
+	key = ck.keyPrefix + key
+	keySeenMu.Lock()
+	keySeen[key]++
+	seen := keySeen[key]
+	keySeenMu.Unlock()
+	if seen > keyCap {
+		ck.c.Count("violations_beyond_cap_not_recorded", 1)
+		return
 	}
-	ck.c.Violation(ck.keyPrefix+key, what, detail)
+	if ck.ctxInfo != nil {
+		if seen <= keyCtxCap {
+			detail["context"] = ck.ctxInfo()
+		} else {
+			detail["context"] = "omitted (attached to the first occurrences of this key in each worker process)"
+		}
+	}
+	ck.c.Violation(key, what, detail)
 }
 
 func kvDesc(kv innerstorage.KeyValue) map[string]any {
